@@ -89,6 +89,8 @@ def main():
             if kf is not None:
                 known_hits.append((kf, r)); continue
             (violations if v[0] == "violation" else mismatches).append(r)
+        for r in res:
+            if r["verdict"] is None: r["case"].pop("prog", None)
         all_results.append((st, res))
     # known findings must still reproduce (else the entry is stale: say so, but that is not a violation)
     for kf in open_known:
@@ -134,13 +136,24 @@ def shrink_first(P, violations, all_results):
     """pick the smallest violating case; streams that know how to shrink do it themselves"""
     r = min(violations, key=lambda r: len(r["case"].get("req", "")))
     st = next(s for s, _ in all_results if s.name == r["stream"])
-    shr = getattr(st, "shrink", None)
-    if shr:
+    rebuild = getattr(st, "ast_rebuild", None)
+    if rebuild and r["case"].get("prog") is not None:
         try:
-            r2 = shr(P, st, r)
-            if r2: return r2
+            from vlib import shrink as shr
+            def fails(progs):
+                sub = core.Stream(st.name, [rebuild(r["case"], p) for p in progs], st.model_reqs, st.judge, None, st.rule, st.timeout_case, st.capture_stdout)
+                res, _ = core.run_stream(P, sub)
+                return [x["verdict"] is not None and x["verdict"][0] == "violation" for x in res]
+            small = shr.shrink([tuple(c) if isinstance(c, list) else c for c in r["case"]["prog"]], fails)
+            sub = core.Stream(st.name, [rebuild(r["case"], small)], st.model_reqs, st.judge, None, st.rule, st.timeout_case, st.capture_stdout)
+            res, _ = core.run_stream(P, sub)
+            if res and res[0]["verdict"] is not None:
+                res[0]["stream"] = st.name
+                res[0]["case"].pop("prog", None)
+                return res[0]
         except Exception:
-            core.log("shrink failed: " + traceback.format_exc()[-500:])
+            core.log("shrink failed: " + traceback.format_exc()[-800:])
+    r["case"].pop("prog", None)
     return r
 
 def write_replay(pid, d):
